@@ -15,11 +15,11 @@ var frameRe = regexp.MustCompile(`^  ([^\s(]+)\(`)
 
 // parseRaceLogs reads the race detector's log files and returns de-duplicated reports.
 type raceReport struct {
-	key      string
-	inLib    bool
-	text     string
-	count    int
-	logFile  string
+	key     string
+	inLib   bool
+	text    string
+	count   int
+	logFile string
 }
 
 func parseRaceLogs(glob string) (reports map[string]*raceReport, total int) {
@@ -210,8 +210,8 @@ func min(a, b int) int {
 
 func init() {
 	plans["C18"] = &plan{
-		runner: runC18,
-		rule: "every execution is a cold child process built with -race from the source-instrumented overlay (count mode: atomic per-site entry counters). A sequential cold process of the same build yields the construction-only entry counts (entries during first use minus the warm per-call cost) and, from them, the function entries where delays are injected (never from names). Each concurrent process releases G in {2,4,16,64} goroutines from one barrier into their first ScalarBaseMult / VarTimeDoubleScalarBaseMult (both lazily built tables), half of the processes with 0.2-2 ms sleeps at the construction function entries; results are compared with model values computed beforehand; every sync.Once body must be entered at most once; the construction-only counts must equal the sequential process's; the number of goroutines simultaneously inside the function containing Once.Do measures contention. Then all goroutines run ~40 operations of Point, Scalar and Element on the same shared read-only operands (incl. shared scalar/point slices and byte slices) with private receivers, mutate their own constructor-returned copies, and must reproduce the sequential transcript. Race detector logs are parsed, de-duplicated by racing library function pair, and any report with library frames is a violation. Final package-state digests of all processes must agree. one evaluation = one goroutine's phase result; distinct by (phase, goroutine, G, expected bytes).",
+		runner:      runC18,
+		rule:        "every execution is a cold child process built with -race from the source-instrumented overlay (count mode: atomic per-site entry counters). A sequential cold process of the same build yields the construction-only entry counts (entries during first use minus the warm per-call cost) and, from them, the function entries where delays are injected (never from names). Each concurrent process releases G in {2,4,16,64} goroutines from one barrier into their first ScalarBaseMult / VarTimeDoubleScalarBaseMult (both lazily built tables), half of the processes with 0.2-2 ms sleeps at the construction function entries; results are compared with model values computed beforehand; every sync.Once body must be entered at most once; the construction-only counts must equal the sequential process's; the number of goroutines simultaneously inside the function containing Once.Do measures contention. Then all goroutines run ~40 operations of Point, Scalar and Element on the same shared read-only operands (incl. shared scalar/point slices and byte slices) with private receivers, mutate their own constructor-returned copies, and must reproduce the sequential transcript. Race detector logs are parsed, de-duplicated by racing library function pair, and any report with library frames is a violation. Final package-state digests of all processes must agree. one evaluation = one goroutine's phase result; distinct by (phase, goroutine, G, expected bytes).",
 		assumptions: append([]string{"explores the schedules the Go scheduler plus injected delays produce, not all interleavings", "the race detector only reports races that occur in the executions run"}, commonAssumptions...),
 		minEvals:    40,
 	}
